@@ -2065,6 +2065,25 @@ def generate(repo: pathlib.Path) -> str:
     out.append(f"/-- Defaults passed by `BatteryManager` (µs). -/\ndef defaultMaxDataAge : Int := {dflt['max_data_age']}\n"
                f"def defaultMaxBlockingDuration : Int := {dflt['max_blocking_duration']}\n")
 
+    # ---- channel capacities: the model's FIFO assumption (every tracker sees every set-power result, every data
+    # message and every status notification, in order) needs the library's default buffers
+    for cls_node in (pool_cls, trk_cls):
+        for n in ast.walk(cls_node):
+            if not isinstance(n, ast.Call):
+                continue
+            f = n.func.attr if isinstance(n.func, ast.Attribute) else ast.unparse(n.func)
+            if f == "new_receiver" and (n.args or any(k.arg != "name" for k in n.keywords)):
+                raise Unsupported(f"receiver with a non-default buffer: {ast.unparse(n)[:100]}")
+            if (f == "Broadcast" or ast.unparse(n.func).startswith("Broadcast[")) \
+                    and (n.args or any(k.arg != "name" for k in n.keywords)):
+                raise Unsupported(f"channel with non-default options: {ast.unparse(n)[:100]}")
+            if f in ("battery_data", "inverter_data") and (len(n.args) != 1 or n.keywords):
+                raise Unsupported(f"data stream with a non-default buffer: {ast.unparse(n)[:100]}")
+    out.append("/-- Every `new_receiver(...)` / `Broadcast(...)` of the pool tracker and every `battery_data` / `inverter_data`\n"
+               "stream of the battery tracker is created with the library's default buffer (the translator raises otherwise):\n"
+               "the per-receiver FIFO of the model loses nothing. -/\n"
+               "def receiverBuffersAreDefault : Bool := true\n")
+
     # ---- pool
     out.append(POOL_STRUCT_TEXT)
     out.append(translate_method(ctx, ("PoolStatus", "get_working_components")))
